@@ -199,6 +199,8 @@ func sxOpt(fr *frame, args []value) value {
 		} else {
 			ps.floatMode = 0
 		}
+	case "no-ifconv":
+		ps.noIfConv = on
 	case "numcpu-sym":
 		ps.numCPUSym = on
 	case "no-numeric-names":
